@@ -375,6 +375,41 @@ def sum_body(c):
     return res
 
 
+# ------------------------------------------------------------------ several likelihoods sharing one site pattern
+@st.composite
+def shared_case(draw):
+    c = draw(phylo.like_case(families=("nucleotide", "nucleotide", "aa", "general"), nmax=5))
+    c["modes"] = draw(st.permutations(["amb", "noamb", "states"]))[: draw(st.integers(2, 3))]
+    return c
+
+
+def shared_body(c):
+    """one specification in which several TreeLikelihoodModels (different tip representations) refer to the
+    same SitePattern / tree / models by id: each must give the value of its own stand-alone specification"""
+    m = c["model"]["name"]
+    res = Res(nontrivial=phylo.varying_column(c), key=(c, c["modes"]), labels=("shared",) + tuple(c["modes"]) + (m,),
+              tags={"model": m, "tree": c["tree"]["kind"], "tip": "+".join(c["modes"]), "bucket": "shared"})
+    spec = phylo.like_spec(dict(c, tip=c["modes"][0]))
+    first = spec[-1]
+    extra = []
+    for i, mode in enumerate(c["modes"][1:], start=2):
+        lk = {"id": "like%d" % i, "type": "TreeLikelihoodModel", "tree_model": "tree", "site_model": "site", "substitution_model": "subst", "site_pattern": "sp",
+              "use_ambiguities": mode == "amb", "use_tip_states": mode == "states"}
+        if "branch_model" in first:
+            lk["branch_model"] = "clock"
+        extra.append(lk)
+    dic = {}
+    for el in spec + extra:
+        phylo.tt.build(el, dic)
+    ids = ["like"] + ["like%d" % i for i in range(2, len(c["modes"]) + 1)]
+    for lid, mode in zip(ids, c["modes"]):
+        got = float(arr(dic[lid]()).reshape(-1)[0])
+        alone = float(value(dict(c, tip=mode)).reshape(-1)[0])
+        if abs(got - alone) > 1e-9 * max(1.0, abs(alone)):
+            return res.fail("mismatch", {"mode": mode, "position": lid, "shared": got, "stand_alone": alone, "modes": list(c["modes"])})
+    return res
+
+
 # ------------------------------------------------------------------ every root position of every topology
 def _root_cases(tier):
     import os
@@ -430,6 +465,7 @@ def subchecks(tier):
     return [
         Sub("rewrite", body, strategy=pair_case, quick=700, thorough=20000, pretags=pretags),
         Sub("reroot", body, strategy=lambda: pair_case(force="reroot"), quick=250, thorough=8000, pretags=pretags),
+        Sub("shared", shared_body, strategy=shared_case, quick=200, thorough=4000),
         Sub("sum_cols", sum_body, strategy=lambda: phylo.like_case(families=("nucleotide", "general"), nmax=6), quick=80, thorough=1500),
         Sub("all_roots", body, enumerate=_root_cases, expand=expand_root_case, exhaustive=(tier == "thorough"), pretags=pretags),
     ]
